@@ -1275,6 +1275,53 @@ def rule_r11(prog, res) -> None:
         raise AnalysisError("C06.R11: no buffer-protocol MPI call found (Bcast vanished?)")
 
 
+def rule_r12(prog, res) -> None:
+    """what one rank writes, every rank may read next: a function in which files are written under a rank-dependent
+    guard (only on the root / only on the writer rank) does not let any rank return before a barrier on the world
+    communicator — otherwise a rank that did not write runs ahead and opens a catalog / a result file that is not
+    complete yet (or is the previous one).  Decided on the flow graph of every function of both parallel variants:
+    every path from the guarded write to the exit passes a world Barrier (or a world broadcast of the written object)."""
+    from ..effects import summaries
+    from .c08 import _is_write
+
+    S = summaries(prog)
+    n = 0
+    funcs = [f for f in prog.funcs if f.parent is None and f.variant in (None, "mpi") and f.module.name.startswith(("yaw.catalog", "yaw.correlation", "yaw.redshifts", "yaw.config"))]
+    for fi in funcs:
+        cfg = cfg_of(fi.node)
+        guarded = []
+        for nd in cfg.nodes:
+            effs = [e for e, _f in S.node_may(fi, nd) if e.kind == "fs" and _is_write(e)]
+            if not effs:
+                continue
+            gs = [(t, pol) for t, pol in cfg.guards(nd) if _rank_dependent(prog, fi, t)]
+            if gs:
+                guarded.append((nd, effs[0], gs[0]))
+        if not guarded:
+            continue
+        calls = _mpi_calls(prog, fi)
+        sync = [nd for nd in cfg.nodes if any(op in ("Barrier", "bcast", "Bcast") and k == WORLD and any(x is c for x in ast.walk(nd.expr or ast.Pass())) for c, op, k in calls)]
+        # … or a helper that performs one (bcast_instance and the like)
+        coll = _world_collective_funcs(prog)
+        sync += [nd for nd in cfg.nodes if any(any(t in coll for t in prog.resolve_call(fi, c).funcs()) for c in nd.calls())]
+        n += 1
+        res.touch(fi)
+        for nd, e, (t, pol) in guarded[:1]:
+            skip = cfg.reach([nd], avoid=lambda x: x in sync, labels={"n", "t", "f", "loop", "exh"})
+            if cfg.exit.id in skip:
+                res.violation(
+                    "C06.R12",
+                    fi,
+                    nd.ast,
+                    f"{fi.qualname} writes files only where `{unparse(t)[:40]}` is {pol} ({norm_stmt(e.call)[:50]}) and can return without a barrier on the world communicator: the ranks that do not write run ahead and read what is not there yet (an incomplete catalog, the previous result file)",
+                    key_extra=f"write-no-barrier-{fi.qualname}",
+                )
+            else:
+                res.ok("C06.R12", res.site(fi, "barrier after rank-guarded write"), "every path from the guarded write to the exit passes a world barrier / broadcast")
+    if n < 3:
+        raise AnalysisError(f"C06.R12: only {n} functions with rank-guarded writes found, minimum 3")
+
+
 RULES = [
     ("C06.R1", rule_r1, QUICK),
     ("C06.R2", rule_r2, QUICK),
@@ -1288,4 +1335,5 @@ RULES = [
     ("C06.R9", rule_r9, QUICK),
     ("C06.R10", rule_r10, QUICK),
     ("C06.R11", rule_r11, QUICK),
+    ("C06.R12", rule_r12, QUICK),
 ]
